@@ -500,7 +500,21 @@ func uniformPartition(n, step int) []int {
 	return p
 }
 
+// somePartitions is memoised: the job list holds one Partition slice per job, and recomputing the
+// all-1-byte partition of a 70000-byte payload for every configuration made the thorough tier's job
+// list tens of gigabytes (the run was killed by the kernel's OOM killer).
+var partMemo = map[int][][]int{}
+
 func somePartitions(n int) [][]int {
+	if p, ok := partMemo[n]; ok {
+		return p
+	}
+	p := somePartitions1(n)
+	partMemo[n] = p
+	return p
+}
+
+func somePartitions1(n int) [][]int {
 	out := [][]int{{n}, uniformPartition(n, 1), uniformPartition(n, 3), uniformPartition(n, 7)}
 	for _, cut := range []int{1, n / 2, n - 1} {
 		if cut > 0 && cut < n {
@@ -778,7 +792,7 @@ func main() {
 	r.Add("fault_base_configs", int64(len(faultBases)))
 
 	// run A..C
-	debug.SetGCPercent(800)
+	debug.SetGCPercent(200)
 	t0 := time.Now()
 	for fi, fam := range [][2]int{{0, nA}, {nA, nA + nB}, {nA + nB, len(jobs)}} {
 		ev.ParFor(fam[1]-fam[0], func(w, i int) {
